@@ -567,7 +567,9 @@ def check_c11(tier):
             if not dead:
                 rep.case("%s|%s|terminates" % (op, label if not label.startswith(("bytemut", "binary")) else label), True)
                 continue
-            sig = "%s|%s|%s" % (op, dead[0]["kind"], site)
+            # a panic is identified by its site; a hang has none: it is identified by the INPUT (one known hang must not
+            # hide another input that never terminates)
+            sig = "%s|%s|%s" % (op, dead[0]["kind"], site if dead[0]["kind"] != "hang" else label)
             rep.case(sig, False, "%s %s at %s on input '%s'" % (op, dead[0]["kind"], site, label),
                      {"op": op, "input_label": label, "text": next(t for (l2, t) in inputs if l2 == label)[:3000], "site": site,
                       "how": "fin-protoc format -d / format -f / compile with all outputs; libpacketdsl.so FormatPacketDslExport in a child process"})
